@@ -416,6 +416,7 @@ def check_content(sim, rec, m, eff, out, asked, hits):
     if exp is not None and "session_nooa" in out and not corrupted:
         if out["session_nooa"] != exp:
             add(sim, rec, "C04", "session-expiry-mismatch", "got=%s expected=%s" % (out["session_nooa"], exp))
+            add(sim, rec, "C08", "session-expiry-mismatch", "got=%s expected=%s" % (out["session_nooa"], exp))
     # came_from
     if "came_from_expected" in out and out.get("came_from") != out["came_from_expected"]:
         add(sim, rec, "C05", "came-from-mismatch", "got=%s expected=%s" % (out.get("came_from"), out["came_from_expected"]))
